@@ -223,6 +223,8 @@ def eval_expr(e, window, orc, ties=None):
         if ties is not None and e[2][0] != "lat":
             if x == y:
                 ties["ratio-tie"] += 1
+            elif abs(x - y) * 10 ** 5 <= max(abs(x), abs(y)):
+                ties["ratio-near-miss(1e-11..1e-5)"] += 1
             elif abs(x - y) * 2 ** 40 < max(abs(x), abs(y)):
                 ties["ratio-too-close"] += 1
         return PYOP[e[1]](x, y)
@@ -625,8 +627,11 @@ class Builder:
             opt += " fbk=" + rng.choice(["default", "resp", "redir", "custom"])
         if rng.random() < 0.1:
             opt += " verbose=1"
-        if rng.random() < 0.08:
+        k = rng.random()
+        if k < 0.06:
             opt += " fx=0"
+        elif k < 0.3:
+            opt += " fx=" + rng.choice(["fail", "failtrip", "failstandby"])
         self.lines = ["cfg fb=%d rec=%d cp=%d px=%s go=%s%s%s" % (fb, rec, cp, px_expr(expr), go_expr(expr, rng),
                                                                    " qs=" + ",".join(qs) if qs else "", opt)]
         self.parks = rng.randint(1, 3) if rng.random() < 0.25 else 0
@@ -897,9 +902,61 @@ def park_retrip(rng):
     return b.lines
 
 
+def near_literals(p, q):
+    """decimal literals at relative distance 1e-11 .. 1e-5 on both sides of p/q (never equal to it)"""
+    r = Fraction(p, q)
+    out = []
+    for k in range(5, 13):
+        base = (r * 10 ** k).numerator // (r * 10 ** k).denominator
+        for n in (base - 1, base, base + 1, base + 2):
+            lit = Fraction(n, 10 ** k)
+            if n > 0 and lit != r and Fraction(1, 10 ** 11) <= abs(lit - r) / r <= Fraction(1, 10 ** 5):
+                out.append(("%d.%0*d" % (n // 10 ** k, k, n % 10 ** k), n, 10 ** k))
+    return out
+
+
+def near_miss(rng):
+    """ratios that come within 1e-11 .. 1e-5 (relative) of the literal without being equal to it: every comparison must still be the
+    exact one.  Each completion is an evaluation (tiny check period); a guard keeps the breaker from tripping before the ratio is reached"""
+    p, q = rng.choice([(1, 3), (2, 3), (1, 2), (1, 4), (3, 4), (2, 5), (3, 5), (1, 6), (2, 7), (3, 7), (5, 6), (1, 1), (3, 8), (4, 9)])
+    text, n, d = rng.choice(near_literals(p, q))
+    use_rcr = rng.random() < 0.5
+    fn = ("rcr", lit_i(500), lit_i(600), lit_i(0), lit_i(600)) if use_rcr else ("ner",)
+    err = [500, 503, 599] if use_rcr else [502, 504]
+    atom = ("cmp", rng.choice(list(OPS)), fn, ("f", n, d, text))
+    g100 = max(0, p * 100 // q - 3)
+    guard = ("cmp", "gt", fn, ("f", g100, 100, "0.%02d" % g100 if g100 < 100 else "1.00"))
+    expr = rng.choice([atom, ("and", guard, atom), ("and", guard, atom), ("and", atom, guard),
+                       ("or", ("cmp", "gt", fn, lit_f(("2.0", 20, 10))), ("and", guard, atom)),
+                       ("and", ("or", atom, ("cmp", "lt", fn, lit_f(("0.0", 0, 10)))), guard)])
+    cp = rng.choice([0, 1000, MS])
+    fb, rec = rng.choice([MS, 2 ** 20, 5 * MS]), rng.choice([MS, 2 ** 20, 5 * MS])
+    b = Builder(rng, fb, rec, cp, expr)
+    b.parks = 0
+    for _ in range(rng.randint(2, 4)):
+        codes = [rng.choice(GOOD[:5])] * (q - p) + [0] * p
+        if rng.random() < 0.3:
+            rng.shuffle(codes)
+        for c in codes:
+            i = b.start()
+            b.adv(cp + rng.choice([1, 1000, MS]))
+            b.finish(i, c or rng.choice(err))
+        b.lines.append("state")
+        # back to standby (or simply on): sit out fallback and recovery, still inside the 10 s counter window
+        b.adv(fb + 1)
+        b.probe("good", hold=0)
+        b.adv(rec + 1)
+        b.probe("good", hold=0)
+        b.lines.append("effects")
+        b.adv(11 * S)                              # the next round starts with an empty counter window
+    return b.lines
+
+
 def raw_scenario(rng, focus):
     if rng.random() < (0.15 if focus == "C18" else 0.05):
         return latency_cycle(rng)
+    if rng.random() < (0.15 if focus == "C18" else 0.03):
+        return near_miss(rng)
     if rng.random() < (0.1 if focus == "C05" else 0.03):
         return park_retrip(rng)
     fb, rec, cp = rng.choice(DURS), rng.choice(DURS), rng.choice(CPS)
